@@ -106,8 +106,38 @@ fn json_eq(a: &J, b: &J) -> bool {
 	}
 }
 
+/// observable state of a dynamically dispatched configuration against the static one: validity and
+/// the results over a probe stream
+fn dyn_differs(c: &dyn IndCfg, d: &dyn yata::core::IndicatorConfigDyn<Candle>, probe: &Vec<Candle>) -> Option<String> {
+	let (vc, vd) = (catch(|| c.validate()).ok()?, catch(|| d.validate()).ok()?);
+	if vc != vd {
+		return Some(format!("validate(): static {vc}, dynamic {vd}"));
+	}
+	if !vc {
+		return None;
+	}
+	let rc = catch(|| c.over(probe)).ok()?;
+	let rd = catch(|| d.over(probe)).ok()?;
+	match (rc, rd) {
+		(Ok(a), Ok(b)) => {
+			let (a, b): (Vec<String>, Vec<String>) = (a.iter().map(res_bits).collect(), b.iter().map(res_bits).collect());
+			if a != b {
+				let i = a.iter().zip(&b).position(|(x, y)| x != y).unwrap_or(0);
+				return Some(format!("over(probe) differs at candle {i}: static {} dynamic {}", a.get(i).cloned().unwrap_or_default(), b.get(i).cloned().unwrap_or_default()));
+			}
+			None
+		}
+		(Err(_), Err(_)) => None,
+		(a, b) => Some(format!("over(probe): static is_ok={} dynamic is_ok={}", a.is_ok(), b.is_ok())),
+	}
+}
+
 fn setters(h: &mut H) {
 	let sink = VioSink::new("Indicators/set");
+	let probe: Vec<Candle> = {
+		let k = alpha::k_candles();
+		(0..48).map(|i| k[[1usize, 2, 4, 5, 0, 3, 1, 1, 2][i % 9]]).collect()
+	};
 	let mut cases = 0u64;
 	let mut ok_cases = 0u64;
 	let all = defaults();
@@ -157,6 +187,10 @@ fn setters(h: &mut H) {
 					Ok(x) if x.is_ok() == r.is_ok() => {}
 					_ => sink.push(&format!("{name}/set/{key}/dyn-disagrees"), case.clone(), "static and dynamic set() differ".into()),
 				}
+				// ... and leave the two configurations in the same state: same validity, same results
+				if let Some(d) = dyn_differs(c.as_ref(), d.as_ref(), &probe) {
+					sink.push(&format!("{name}/set/{key}/dyn-state-differs"), case.clone(), d);
+				}
 				let after = json_map(&c.to_json().unwrap_or_default());
 				let changed: Vec<&String> = before.keys().filter(|k| !json_eq(&before[*k], after.get(*k).unwrap_or(&J::Null))).collect();
 				match (&r, &want) {
@@ -188,6 +222,46 @@ fn setters(h: &mut H) {
 					(Err(_), None) => {
 						if !changed.is_empty() {
 							sink.push(&format!("{name}/set/{key}/err-but-changed"), case, format!("changed {changed:?}"));
+						}
+					}
+				}
+			}
+		}
+		// two consecutive set() calls (the first may leave the configuration temporarily invalid)
+		let fields: Vec<(&String, Vec<String>)> = before
+			.iter()
+			.filter_map(|(k, v)| {
+				let ft = field_type(v);
+				if ft == FT::Other {
+					return None;
+				}
+				let mut t: Vec<String> = texts(ft).into_iter().filter(|(_, w)| matches!(w, Some(x) if !x.is_null())).map(|(t, _)| t).collect();
+				// a spread of the parsable texts
+				let n = t.len();
+				if n > 6 {
+					t = [0, 1, n / 3, n / 2, 2 * n / 3, n - 1].iter().map(|i| t[*i].clone()).collect();
+				}
+				Some((k, t))
+			})
+			.collect();
+		for (k1, t1s) in &fields {
+			for (k2, t2s) in &fields {
+				for t1 in t1s {
+					for t2 in t2s {
+						cases += 1;
+						let mut c = c0.boxed_clone();
+						let mut d = c0.as_dyn();
+						let r = catch(|| (c.set(k1, t1.clone()).is_ok(), c.set(k2, t2.clone()).is_ok()));
+						let rd = catch(|| (d.set(k1, t1.clone()).is_ok(), d.set(k2, t2.clone()).is_ok()));
+						let case = format!("{name}.set({k1:?}, {t1:?}); set({k2:?}, {t2:?})");
+						match (r, rd) {
+							(Ok(a), Ok(b)) if a == b => {
+								if let Some(x) = dyn_differs(c.as_ref(), d.as_ref(), &probe) {
+									sink.push(&format!("{name}/set-twice/dyn-state-differs"), case, x);
+								}
+							}
+							(Ok(_), Ok(_)) => sink.push(&format!("{name}/set-twice/dyn-disagrees"), case, "static and dynamic set() return differently".into()),
+							_ => sink.push(&format!("{name}/set-twice/panic"), case, String::new()),
 						}
 					}
 				}
